@@ -54,7 +54,9 @@ CHECKS.update({
                 "run and judged.", "DESIGN.md §4 C07"),
     "C08": _sem("Histories of engine.ground/engine.query calls on one shared target formula and one prepared ClauseDB "
                 "(all orders of queries and evidence up to a cap, with interleaved throw-away queries), and fresh "
-                "single-query groundings, judged by Semantics.tla and compared with the default pipeline.",
+                "single-query groundings, judged by Semantics.tla and compared with the default pipeline. The engine's goal table "
+                "(DefineCache) is model checked against its variant-class meaning (DefineCache.tla) and every explored call "
+                "history is replayed on the real class.",
                 "DESIGN.md §4 C08", technique="API-call histories replayed on the real engine + TLA+ Semantics oracle (TLC); TLC refinement model of the goal table (DefineCache.tla) replayed on the real class"),
 })
 
@@ -355,7 +357,8 @@ CHECKS["C17"]["text"] += (" Literal forms (signed numbers, exponents, quoted ato
                           "parent/child operator edge, which is the identity used for known findings.")
 CHECKS["C18"]["text"] += " The == matrix is recorded before and after all hashes are taken; the two must be the same."
 CHECKS["C20"]["text"] += (" Case signatures carry the program's structure (AD present, conjunctions over disjoint choices, negation, "
-                          "all choices relevant); a read-once family isolates the evaluator from the MaxSAT encoding.")
+                          "all choices relevant); a read-once family isolates the evaluator from the MaxSAT encoding; "
+                          "a contradictory-evidence family (both signs on one choice atom) must be reported unsatisfiable.")
 CHECKS["C25"]["text"] += " Programs with duplicated probabilistic statements are included."
 CHECKS["C26"]["text"] += (" Both kinds of wrapper are also put in ONE program, in either query order: a subquery must not see the "
                           "evidence or queries of another.")
